@@ -126,11 +126,20 @@ def run(prog, tier, res):
     han = analysis(prog, hb)
     hsy = Sym(prog, han, slice_param=99)
     res.functions.add(HCRC)
-    rets = [field_names_subst(prog, hsy.name(t)) for _, t in han.ret_assignments()]
-    if rets == [spec["header_crc_writer"]]:
+    # the bytes handed to crc32c, whichever way the buffer is assembled (iterator chain or array filled in place)
+    from .. import bytemap
+    hbytes = None
+    hret = [strip(t) for _, t in han.ret_assignments()]
+    if len(hret) == 1 and hret[0][0] == "un" and hret[0][1] == "Not":
+        c_ = strip(hret[0][2])
+        if c_[0] == "call" and c_[1].endswith("crc32c::crc32c") and len(c_[2]) == 1:
+            bs_ = bytemap.bytes_of(prog, han, hsy, c_[2][0])
+            hbytes = field_names_subst(prog, bytemap.render(bs_)) if bs_ is not None else None
+    if hbytes == spec["header_crc_bytes"]:
         res.hit(R4)
     else:
-        res.violate(R4, HCRC, "header-writer", "header_crc32c() does not hash device_id|packet_sequence|channel_sequence|channel_id|flags|chunk_id|payload.len() as little-endian in the decoder's order: %s" % rets, hb.where())
+        res.violate(R4, HCRC, "header-writer", "header_crc32c() does not hash device_id|packet_sequence|channel_sequence|channel_id|flags|chunk_id|payload.len() as little-endian in the decoder's order: %s" % (
+            hbytes or [field_names_subst(prog, hsy.name(t)) for _, t in han.ret_assignments()]), hb.where())
     pb = prog.body(PCRC)
     pan = analysis(prog, pb)
     psy = Sym(prog, pan, slice_param=99)
@@ -174,7 +183,19 @@ def run(prog, tier, res):
     else:
         res.violate(R4, PCRC, "padding", "payload_crc32c(): %s" % pad_bad[0], pb.where())
     prets = [field_names_subst(prog, psy.name(t)) for _, t in pan.ret_assignments()]
-    if len(prets) == 1 and prets[0].startswith("not(crc32c::crc32c(Index::index(Iterator::collect(Iterator::chain(arg1.payload,Iterator::take(iter::repeat(0),"):
+    pw_ok = len(prets) == 1 and prets[0].startswith("not(crc32c::crc32c(Index::index(Iterator::collect(Iterator::chain(arg1.payload,Iterator::take(iter::repeat(0),")
+    if not pw_ok and len(prets) == 1 and prets[0] == "not(crc32c::crc32c(Index::index(mut(arg1.payload),RangeFull{})))":
+        # `let mut v = self.payload.clone(); v.extend(repeat(0).take(padding));`: the copy is modified by exactly one
+        # call, which appends the zero padding
+        muts = []
+        for bb_, t_ in pb.calls():
+            a0 = t_["args"][0] if t_["args"] else None
+            if a0 is not None and a0.get("k") in ("move", "copy") and not a0["p"]["pr"]:
+                lty = pb.locals[a0["p"]["l"]]["ty"]
+                if lty.get("k") == "ref" and lty.get("m") and "Vec<u8>" in psy.short_ty(lty):
+                    muts.append((short(cname(t_)), psy.name(pan.terms.operand(t_["args"][1])) if len(t_["args"]) > 1 else ""))
+        pw_ok = len(muts) == 1 and muts[0][0] in ("Extend::extend", "Vec::<T, A>::extend") and muts[0][1].startswith("Iterator::take(iter::repeat(0),")
+    if pw_ok:
         res.hit(R4)
     else:
         res.violate(R4, PCRC, "payload-writer", "payload_crc32c() is not !crc32c(payload ++ zero padding): %s" % prets, pb.where())
